@@ -531,6 +531,7 @@ func (c *Ctx) callbackOnlyCalls(prm *ssa.Parameter, argIdx, d int) bool {
 
 func runShared(c *Ctx) {
 	p := c.P
+	c.runLocks()
 	own := c.ownership()
 	var pc, sh []string
 	for k := range own.perCall {
@@ -1536,4 +1537,81 @@ func localMapRoot(v ssa.Value) *ssa.MakeMap {
 		}
 	}
 	return nil
+}
+
+// runLocks (SHARED-L): a type that holds a lock by value is never copied. The planner copies Func values, option
+// merging copies builders: a sync.Mutex (Once, WaitGroup, RWMutex, Cond, atomic value types) inside such a type is
+// copied together with its state — a copy taken while the lock is held is a locked lock nobody unlocks.
+func (c *Ctx) runLocks() {
+	p := c.P
+	isLock := func(t types.Type) bool {
+		n, ok := t.(*types.Named)
+		if !ok || n.Obj().Pkg() == nil {
+			return false
+		}
+		switch n.Obj().Pkg().Path() {
+		case "sync":
+			switch n.Obj().Name() {
+			case "Mutex", "RWMutex", "Once", "WaitGroup", "Cond", "Map", "Pool":
+				return true
+			}
+		case "sync/atomic":
+			return true
+		}
+		return false
+	}
+	var holds func(t types.Type, d int) string
+	holds = func(t types.Type, d int) string {
+		if d > 6 {
+			return ""
+		}
+		if isLock(t) {
+			return core.TypeStr(t)
+		}
+		switch u := t.Underlying().(type) {
+		case *types.Struct:
+			for i := 0; i < u.NumFields(); i++ {
+				if w := holds(u.Field(i).Type(), d+1); w != "" {
+					return u.Field(i).Name() + " " + w
+				}
+			}
+		case *types.Array:
+			return holds(u.Elem(), d+1)
+		}
+		return ""
+	}
+	lockTypes := map[string]string{}
+	for _, pkg := range []*ssa.Package{p.Arg, p.Graph} {
+		for _, m := range pkg.Members {
+			if tn, ok := m.(*ssa.Type); ok {
+				if w := holds(tn.Type(), 0); w != "" && !isLock(tn.Type()) {
+					lockTypes[core.TypeStr(tn.Type())] = w
+				}
+			}
+		}
+	}
+	copied := ""
+	if len(lockTypes) > 0 {
+		for _, f := range append(p.ArgFuncs(), p.GraphFuncs()...) {
+			core.Instrs(f, func(in ssa.Instruction) {
+				v, ok := in.(ssa.Value)
+				if !ok {
+					return
+				}
+				if ld, isLd := in.(*ssa.UnOp); isLd && ld.Op == token.MUL {
+					if w, has := lockTypes[core.TypeStr(v.Type())]; has {
+						copied = fmt.Sprintf("%s (holds %s) is copied by value in %s at %s", core.TypeStr(v.Type()), w, core.FuncName(f), p.InstrPos(in))
+					}
+				}
+			})
+		}
+	}
+	var names []string
+	for n, w := range lockTypes {
+		names = append(names, n+" ("+w+")")
+	}
+	sort.Strings(names)
+	c.R.Add("SHARED-L", "no-lock-holding-type-copied", "(package)", "-", copied == "",
+		"no type that holds a lock by value is copied (the planner copies Func values; a copied mutex carries its locked state with it)",
+		ternary(copied == "", fmt.Sprintf("lock-holding types: %v; none copied", names), copied))
 }
